@@ -9,6 +9,6 @@ CONSTANTS
   Near <- NearFast
 INIT Init
 NEXT Next
-INVARIANTS C10_RemoteRoutesBack C03_Routing C05_NoSharedName C04_KindSeparation C02_ExactlyOne C06_OnlyEmitted RejectedIffInvalid
+INVARIANTS C10_RemoteRoutesBack C03_Routing C05_NoSharedName C04_KindSeparation C02_ExactlyOne C06_OnlyEmitted C06_OverrideReachesUser C06_OverrideIsLocal RejectedIffInvalid
 POSTCONDITION EmitCorpus
 CHECK_DEADLOCK FALSE
